@@ -60,6 +60,9 @@ func checkC12(ctx *Ctx, r *Report) {
 	c12FourthRound(ctx, r, p)
 	c12ConstructorCollections(ctx, r)
 	c12NumericKeywordsRead(ctx, r)
+	c12CollectionDefaultsRead(ctx, r)
+	c12CueNestedEmptyCollections(ctx, r)
+	c12GoRequiredUnionInitialised(ctx, r)
 }
 
 func c12Method(p *packages.Package, name string) *ast.FuncDecl {
@@ -1409,4 +1412,190 @@ func c12NumericKeywordsRead(ctx *Ctx, r *Report) {
 	}
 	r.Count("numeric constraint keywords of the parser libraries", n)
 	r.Floor("numeric constraint keywords of the parser libraries", 7)
+}
+
+// c12CollectionDefaultsRead: every list or map type built by the JSON Schema and OpenAPI front-ends is given the
+// default written in the schema — as an ast.Default option of the constructor call, or through an assignment to the
+// Default of the variable that receives it.
+func c12CollectionDefaultsRead(ctx *Ctx, r *Report) {
+	n := 0
+	for _, rel := range []string{"internal/jsonschema", "internal/openapi"} {
+		p := ctx.Pkg(rel)
+		if p == nil {
+			r.Undecided("anchor lost: " + rel)
+			continue
+		}
+		info := p.TypesInfo
+		for _, f := range p.Syntax {
+			for _, d := range f.Decls {
+				fd, ok := d.(*ast.FuncDecl)
+				if !ok || fd.Body == nil {
+					continue
+				}
+				parents := parentMap(fd)
+				seen := map[string]int{}
+				ast.Inspect(fd.Body, func(m ast.Node) bool {
+					c, ok := m.(*ast.CallExpr)
+					if !ok {
+						return true
+					}
+					fn := callee(info, c)
+					if fn == nil || fn.Pkg() == nil || !strings.HasSuffix(fn.Pkg().Path(), "internal/ast") || (fn.Name() != "NewMap" && fn.Name() != "NewArray") {
+						return true
+					}
+					carried := false
+					for _, a := range c.Args {
+						if ac, ok := ast.Unparen(a).(*ast.CallExpr); ok {
+							if af := callee(info, ac); af != nil && af.Name() == "Default" {
+								carried = true
+							}
+						}
+					}
+					if as, ok := parents[ast.Node(c)].(*ast.AssignStmt); ok && len(as.Lhs) == 1 {
+						if id, ok := as.Lhs[0].(*ast.Ident); ok {
+							obj := objOf(info, id)
+							ast.Inspect(fd.Body, func(k ast.Node) bool {
+								if a2, ok := k.(*ast.AssignStmt); ok {
+									for _, l := range a2.Lhs {
+										if sel, ok := ast.Unparen(l).(*ast.SelectorExpr); ok && sel.Sel.Name == "Default" {
+											if x, ok := ast.Unparen(sel.X).(*ast.Ident); ok && objOf(info, x) == obj {
+												carried = true
+											}
+										}
+									}
+								}
+								return true
+							})
+						}
+					}
+					kind := strings.TrimPrefix(fn.Name(), "New")
+					seen[kind]++
+					cons := fmt.Sprintf("%s.%s builds a %s", p.Types.Name(), fd.Name.Name, strings.ToLower(kind))
+					if seen[kind] > 1 {
+						cons = fmt.Sprintf("%s #%d", cons, seen[kind])
+					}
+					n++
+					r.Check(carried, "frontier/collection-default-read", cons, c.Pos(), "the type is built with the default of the schema",
+						fmt.Sprintf("%s.%s builds a %s without the `default` of the schema: {\"type\":\"object\",\"additionalProperties\":{\"type\":\"string\"},\"default\":{\"env\":\"prod\"}} loses its default — the constructors leave the field empty and the re-emitted schema has no default", p.Types.Name(), fd.Name.Name, strings.ToLower(kind)))
+					return true
+				})
+			}
+		}
+	}
+	r.Count("lists and maps built by the JSON Schema and OpenAPI front-ends", n)
+	r.Floor("lists and maps built by the JSON Schema and OpenAPI front-ends", 4)
+}
+
+// c12CueNestedEmptyCollections: the converter of concrete CUE values may answer "no value" (nil) for an empty list or
+// struct only at the top of a default; inside another value (`[["a"], []]`, `{points: []}`) nil is a different value —
+// `null`, which the emitted schema does not admit. In the clauses of the list and struct kinds, a `return nil, nil` is
+// preceded by a test on a parameter of the function that answers a non-nil value.
+func c12CueNestedEmptyCollections(ctx *Ctx, r *Report) {
+	sp := ctx.Pkg("internal/simplecue")
+	fn := ctx.LookupFunc("internal/simplecue", "cueConcreteToScalar")
+	fd, _ := ctx.DeclOf(fn)
+	if sp == nil || fd == nil || fd.Body == nil {
+		r.Undecided("anchor lost: simplecue.cueConcreteToScalar")
+		return
+	}
+	info := sp.TypesInfo
+	fd = followDelegation(ctx, info, fd)
+	params := map[types.Object]bool{}
+	for _, f := range fd.Type.Params.List {
+		for _, nm := range f.Names {
+			params[info.Defs[nm]] = true
+		}
+	}
+	n := 0
+	ast.Inspect(fd.Body, func(m ast.Node) bool {
+		cc, ok := m.(*ast.CaseClause)
+		if !ok {
+			return true
+		}
+		kind := ""
+		for _, e := range cc.List {
+			switch {
+			case strings.HasSuffix(exprString(e), "ListKind"):
+				kind = "list"
+			case strings.HasSuffix(exprString(e), "StructKind"):
+				kind = "struct"
+			}
+		}
+		if kind == "" {
+			return true
+		}
+		n++
+		answersNil, keeps := false, false
+		ast.Inspect(cc, func(q ast.Node) bool {
+			switch x := q.(type) {
+			case *ast.ReturnStmt:
+				if len(x.Results) == 2 && exprString(x.Results[0]) == "nil" && exprString(x.Results[1]) == "nil" {
+					answersNil = true
+				}
+			case *ast.IfStmt:
+				usesParam := false
+				ast.Inspect(x.Cond, func(k ast.Node) bool {
+					if id, ok := k.(*ast.Ident); ok && params[objOf(info, id)] && id.Name != "v" {
+						usesParam = true
+					}
+					return true
+				})
+				if usesParam && len(x.Body.List) == 1 {
+					if rs, ok := x.Body.List[0].(*ast.ReturnStmt); ok && len(rs.Results) == 2 && exprString(rs.Results[0]) != "nil" {
+						keeps = true
+					}
+				}
+			}
+			return true
+		})
+		r.Check(!answersNil || keeps, "frontier/cue-nested-empty-collection", "simplecue.cueConcreteToScalar keeps a nested empty "+kind, cc.Pos(), "nil is only answered for an empty "+kind+" that is not held by another value",
+			"the converter answers nil for every empty "+kind+", nested ones included: the default `[[\"a\"], []]` becomes [[\"a\"], null] — another value, which does not validate against the emitted schema (kin-openapi: Value is not nullable)")
+		return false
+	})
+	r.Count("collection kinds of nested CUE values", n)
+	r.Floor("collection kinds of nested CUE values", 2)
+}
+
+// c12GoRequiredUnionInitialised: a union of scalars / references becomes a Go struct with one pointer per branch, encoded
+// as `null` when no branch is set — a value none of the branches of the emitted anyOf admits. The constructor of a
+// struct must therefore give a *required* field of such a type a value with one branch set: in defaultsForStructRec
+// some branch that does not depend on an enclosing default tests IsStructGeneratedFromDisjunction.
+func c12GoRequiredUnionInitialised(ctx *Ctx, r *Report) {
+	fn := ctx.LookupMethod("internal/jennies/golang", "RawTypes", "defaultsForStructRec")
+	fd, p := ctx.DeclOf(fn)
+	if fd == nil {
+		r.Undecided("anchor lost: golang.RawTypes.defaultsForStructRec")
+		return
+	}
+	_ = p
+	parents := parentMap(fd)
+	handled := false
+	ast.Inspect(fd.Body, func(m ast.Node) bool {
+		c, ok := m.(*ast.CallExpr)
+		if !ok {
+			return true
+		}
+		sel, ok := c.Fun.(*ast.SelectorExpr)
+		if !ok || sel.Sel.Name != "IsStructGeneratedFromDisjunction" {
+			return true
+		}
+		// not under a condition that looks the field up in the enclosing defaults
+		under := false
+		for _, ce := range enclosingConds(parents, c) {
+			text := exprString(ce.stmt.Cond)
+			if init, ok := ce.stmt.Init.(*ast.AssignStmt); ok && len(init.Rhs) == 1 {
+				text += exprString(init.Rhs[0])
+			}
+			if strings.Contains(text, "extraDefaults") && !ce.inElse {
+				under = true
+			}
+		}
+		if !under {
+			handled = true
+		}
+		return true
+	})
+	r.Count("constructors of union wrappers in struct defaults", 1)
+	r.Check(handled, "skeleton/go-required-union-initialised", "golang.RawTypes.defaultsForStructRec initialises required unions", fd.Pos(), "a required field typed by a union wrapper is given a value with one branch set",
+		"defaultsForStructRec only selects a branch of a union wrapper for a default found in the enclosing struct's default: a required `other: string | bool` is initialised with *NewStringOrBool() — no branch set — and json.Marshal(NewRoot()) is {\"other\":null}, which the emitted schema (anyOf[string, boolean], required) rejects")
 }
